@@ -614,6 +614,7 @@ func generate(prop string, seed int64, tier string) *Plan {
 	g := newGen(seed^int64(hashString(prop)&0xffff)<<32, tier)
 	p := &Plan{Prop: prop, Seed: seed, Tier: tier}
 	p.Cfg.Hook = g.chance(0.35)
+	p.Cfg.CarryPool = g.chance(0.5)
 	if prop == "C12" && g.chance(0.5) {
 		p.Cfg.LateReg = 1 + int(seed%90000)
 	}
